@@ -84,10 +84,10 @@ def common(run, modules):
             eok, elog = R.lake_build(run, [em])
             run.oblige("premise (atomic map of the cache-level model = xsync protocol skeleton): lake build %s" % em, eok, elog)
     for dm in DEEP.get(run.pid, []):
-        dok_, dlog_ = R.lake_build(run, [dm])
+        dok_, dlog_ = R.lake_build(run, [dm], timeout=900)
         run.oblige("lake build %s (for every state and call, the interpreter of the Go subset run on the method bodies printed from the working tree computes exactly the hand-written model's step)" % dm, dok_, dlog_)
     for tm in TRACE.get(run.pid, []):
-        tok_, tlog_ = R.lake_build(run, [tm])
+        tok_, tlog_ = R.lake_build(run, [tm], timeout=900)
         run.oblige("lake build %s (the concurrent cache model M5, run by one thread, computes the sequential step and takes exactly the atomic actions the tracing interpreter records on the method bodies printed from the working tree)" % tm, tok_, tlog_)
     ok, log = R.lake_build(run, modules)
     run.oblige("lake build %s (all proof obligations of the property's modules)" % " ".join(modules), ok, log)
